@@ -47,7 +47,7 @@ _p("C16", modules=["quic_pkn"], level="proof",
    design_ref="DESIGN.md 4 C16", explanation="", assumptions=[], trusted_base=["cryptography AEAD objects: decrypt(nonce, ciphertext, aad) - recorder stand-in"],
    not_under_contract=["QuicSession.decrypt_packet (call site: passes the result to QuicDecryptor.decrypt)"])
 
-_p("C11", modules=["checksums"], level="proof",
+_p("C11", modules=["checksums", "main_run"], level="proof",
    level_text="ones_complement_checksum is proved (two loop invariants + variant) to return 0xFFFF - fold(sum16(pad(a))) for arrays of any length without "
               "raising; calculate_checksum_tcp/udp are proved, for IPv4 and IPv6, any segment length and any checksum value, to return True exactly when the "
               "RFC 1071 receiver rule accepts pseudo-header ++ segment, with the pseudo-header checked field by field against RFC 793/768/8200; the two "
@@ -130,7 +130,7 @@ _p("C07", modules=["tcp_output", "quic_output", "framing", "ports"], level="othe
    trusted_base=["scapy layer constructors", "dpkt readers/writers (timestamp resolution)"], bounded=BOUNDED_FRAMING,
    not_under_contract=["dpkt_dsb.Reader timestamp arithmetic (C12)"])
 
-_p("C05", modules=["framing"], level="other",
+_p("C05", modules=["framing", "main_run"], level="other",
    technique="contracts on the real functions checked exhaustively within a stated bound (bounded stand-in) + unbounded dedupe contract",
    level_text="BOUNDED (<= 3 segments, <= 14 stream bytes, everything else symbolic): extract_server_buf/extract_client_buf release exactly frame(D) when the buffered segments chain "
               "contiguously modulo 2^32 and D ends on a record boundary, and otherwise release nothing and keep every segment; get_tls_records delivers, for every cut of a "
@@ -142,3 +142,49 @@ _p("C05", modules=["framing"], level="other",
    explanation="The property quantifies over all segmentations; the check covers all segmentations into at most 3 segments of streams of at most 14 bytes. It is exhaustive within that "
                "bound and silent beyond it.",
    assumptions=[], trusted_base=["list.sort (stable, total order by key)"], bounded=BOUNDED_FRAMING, not_under_contract=["main.run's skip of empty segments (run() contract)"])
+
+
+_p("C09", modules=["keylog", "main_run"], level="other",
+   technique="contract-based deductive verification: regular-language inclusion (z3 re theory) for the key-log pattern, VCs for the parsers and run()'s DSB/-s branches",
+   level_text="Proved: every line of the NSS key-log grammar (nine labels, upper- or lower-case hex) is accepted by the REAL pattern and yields exactly its three fields "
+              "(language inclusion oracle <= pattern, decided by z3); any other line is rejected or parsed without exception; get_keys_from_string returns the keys of "
+              "the key lines in order for LF and CRLF files with comment, blank and foreign lines (bounded to 3 lines); a connection selects exactly the lines whose "
+              "client random spells its own, case-insensitively, in order (bounded to 2 lines); -s has no default and without it no file is read; a DSB's text goes "
+              "to the same parser, extends the run's key list and never reaches the packet parser.",
+   level_note="level 'other': byte identity of two output FILES (the property's wording) is a relational statement over the whole pipeline and is not derived; what is proved is "
+              "that both sources produce the same key list and that consumers depend only on (label, client random bytes, value); Python's str.split/replace and re.match are assumed "
+              "(regular-language model); DSB placement inside the pcapng (dpkt_dsb.Reader) is not under contract (C12)",
+   design_ref="DESIGN.md 4 C09",
+   explanation="Parser-level and call-site obligations are discharged; invariance under line order/duplicates follows from the selection contract (first match per label) only "
+               "on paper; reader-level DSB handling (where in the file the block sits) is not covered.",
+   assumptions=["str.split / str.replace / str.lower / bytes.fromhex behave as in CPython on regular-language-typed strings"],
+   trusted_base=["re (pattern semantics translated to z3 RegLan)"],
+   bounded=[{"function": "keylog_reader.get_keys_from_string / Session.find_session_secrets", "bound": "<= 3 lines of key-log text, <= 2 key lines per selection", "counted_as": "bounded"}],
+   not_under_contract=["dpkt_dsb.Reader / DecryptionSecretBlock.unpack (DSB position and byte order)", "QuicSession.set_tls_decryptors' own key-log loop (same comparison through bytes.fromhex)"])
+
+_p("C18", modules=["main_run", "demux"], level="other",
+   technique="contract-based deductive verification of run() against recorder contracts + syntactic frame obligations",
+   level_text="Determinism of sequential Python is the absence of a few things, each proved as an obligation: run() resets every module-level list before use (state of an earlier run "
+              "cannot reach this one); run() opens exactly the input and output file and reads a key-log file iff -s is given (no cwd-relative defaults for -s); every (frame, ts) "
+              "handed to dpkt's writer has its own non-None timestamp (dpkt would otherwise substitute the wall clock); the QUIC connection-ID lookup does not depend on set "
+              "iteration order (longest non-empty match; demux.quic_routing); no per-connection class or helper writes module-level state; no ambient reads (time, random, environ).",
+   level_note="byte identity of the written file additionally needs scapy/dpkt to be deterministic (assumed); -i keeps a cwd-relative default (an explicit -i is required for cwd independence); "
+              "tie order inside sorted(set, key=len) is argued (equal-length distinct IDs cannot both match) rather than proved",
+   design_ref="DESIGN.md 4 C18",
+   explanation="Five named sources of nondeterminism are excluded by discharged obligations; determinism of the libraries and of CPython itself is assumed.",
+   assumptions=["scapy and dpkt serialise deterministically"], trusted_base=["dpkt.pcapng.Writer", "scapy serialiser"],
+   not_under_contract=["set_logger (log output is not part of the export)"])
+
+_p("C04", modules=["demux", "ports", "keylog", "framing"], level="other",
+   technique="contract-based deductive verification (routing contracts, exact-match contract) + syntactic frame obligations",
+   level_text="Proved: matches_session / matches_session_dgram hold iff the packet's 4-tuple equals the session's in one of the two directions (IPv4 and IPv6); main.handle_packet "
+              "hands a packet to the first matching session only and creates a session only if none matches; main.handle_quic_packet hands a datagram to exactly one session - "
+              "the owner of its non-empty destination connection ID (longest match) or else the address match - and a zero-length ID never attracts packets; "
+              "Session.handle_packet buffers per direction; key selection uses exactly the lines with the session's client random; frame obligations: no method of a "
+              "per-connection class and no shared helper writes module-level state or class-level mutables.",
+   level_note="level 'other': 'exported as if alone' is a whole-run relational statement; it follows from routing + isolation frames by the fold argument in DESIGN 4 C04 (not machine-checked). "
+              "4-tuple reuse over time and QUIC connection migration are outside the claim.",
+   design_ref="DESIGN.md 4 C04",
+   explanation="Routing and isolation obligations discharged per function; the lifting to 'union of per-connection outputs' is the paper fold invariant delivered(S) = subsequence of the capture with S's identity.",
+   assumptions=[], trusted_base=[], bounded=BOUNDED_FRAMING, composition_assumptions=["fold invariant over the capture (DESIGN 4 C04)"],
+   not_under_contract=["QuicSession.handle_packet's own CID learning (C02)"])
